@@ -1,4 +1,5 @@
 import GoWebdav.Lemmas.CaldavAgree
+import GoWebdav.Lemmas.CaldavNoise
 /-!
 # C08, wire → backend for every RFC-conformant document — against the independent strict reader
 
@@ -16,6 +17,24 @@ open GoWebdav GoWebdav.Std.Xml GoWebdav.Impl.Caldav GoWebdav.Impl.CaldavWire GoW
     element, filter trees and component selections of any depth: the backend receives exactly the query it denotes -/
 theorem C08_rfc_document_reaches_backend (n : Node) (q : Query) (h : readQuery n = some q) : decodeQuery n = .ok q :=
   GoWebdav.Lemmas.CaldavAgree.decodeQuery_of_read n q h
+
+/-- the server's decoder does not see insignificant content — comments, and white space between the elements of an
+    element-content model — anywhere in ANY document, at any nesting depth (the character data of text-match, href and
+    timezone is left alone) -/
+theorem C08_decoder_ignores_insignificant_content (n : Node) :
+    decodeQuery (Spec.XmlNoise.clean Lemmas.CaldavNoise.pc n) = decodeQuery n :=
+  Lemmas.CaldavNoise.decodeQuery_clean n
+
+/-- …hence every document that is RFC-conformant once that content is set aside (pretty-printed, commented) reaches the
+    backend as the query it denotes -/
+theorem C08_rfc_document_reaches_backend_lexical (n : Node) (q : Query)
+    (h : readQuery (Spec.XmlNoise.clean Lemmas.CaldavNoise.pc n) = some q) : decodeQuery n = .ok q :=
+  Lemmas.CaldavNoise.decodeQuery_of_read_clean n q h
+
+/-- the same for every calendar-multiget document the strict reader accepts (data request and hrefs in order) -/
+theorem C08_rfc_multiget_reaches_backend (unescape : String → Option String) (n : Node) (m : MultiGet)
+    (h : readMultiGet unescape n = some m) : decodeMultiGet unescape n = .ok m :=
+  GoWebdav.Lemmas.CaldavAgree.decodeMultiGet_of_read unescape n m h
 
 /-- every RFC-conformant comp-filter element reaches the backend as the filter it denotes -/
 theorem C08_rfc_filter_reaches_backend (n : Node) (cf : CompFilter) (h : readCompFilter n = some cf) :
